@@ -1300,7 +1300,8 @@ func (a *align) Mask(refseq string, start, length int, maskreplace string, nogap
 	}
 
 	var refchar uint8 = '.'
-	for i := start; i < (start+length) && i < a.Length(); i++ {
+	// the window is truncated at the end of the alignment (length may be arbitrarily large)
+	for i := start; i-start < length && i < a.Length(); i++ {
 		if refseq != "" && noref {
 			refchar = refSequence.CharAt(i)
 		}
@@ -1322,7 +1323,7 @@ func (a *align) Mask(refseq string, start, length int, maskreplace string, nogap
 		for _, seq := range a.seqs {
 			// We do not mask gaps if nogap is true
 			// We do not mask ref character
-			if !(nogap && (seq.sequence[i] == GAP)) && !(noref && (seq.sequence[i] == refchar)) {
+			if !(nogap && (seq.sequence[i] == GAP)) && !(noref && refseq != "" && (seq.sequence[i] == refchar)) {
 				seq.sequence[i] = rep
 			}
 		}
